@@ -98,6 +98,7 @@ LAYOUT = ["tie_layout_sites_agree", "tie_layout_order"]
 TIED = {"C01": {"Intg": INTG, "Shoot": SHOOT, "Layout": LAYOUT},
         "C04": {"Smp": SMP},
         "C07": {"Smp": SMP, "Shoot": ["tie_ms_step", "tie_ss_step"]},
+        "C11": {"Free": ["tie_freeT_rows", "tie_freet0_rows", "tie_free_guess"]},
         "C17": {"Spline": ["tie_spline_member_R", "tie_spline_member_width", "tie_spline_chain_dynamics_R", "tie_spline_chain_dynamics_gen_R",
                            "tie_spline_time", "tie_spline_time_inv"]},
         "C09": {"Smp": ["tie_env_control", "tie_env_inner", "tie_env_integrator", "tie_env_root"], "Layout": LAYOUT},
@@ -107,7 +108,7 @@ TIED = {"C01": {"Intg": INTG, "Shoot": SHOOT, "Layout": LAYOUT},
         "C08": {"Intg": ["tie_intg_rk", "tie_intg_expl_euler"]}}
 TIE_SRC = {"Intg": "rockit/sampling_method.py", "Dc": "rockit/direct_collocation.py", "Smp": "rockit/sampling_method.py",
            "Shoot": "rockit/multiple_shooting.py, rockit/single_shooting.py", "Layout": "rockit/stage.py, rockit/sampling_method.py",
-           "Spline": "rockit/spline_method.py"}
+           "Spline": "rockit/spline_method.py", "Free": "rockit/direct_method.py"}
 
 
 def check_ties(pid, chk=False):
